@@ -123,6 +123,7 @@ func (fv *FV) enterBlock(st *State, from, to *ssa.BasicBlock) *State {
 		return st
 	}
 	var errs []string
+	fv.checkTypeInvs(st, loopPos(li))
 	isBack := li.Body[from]
 	kind := "inv-entry"
 	if isBack {
@@ -252,24 +253,20 @@ func (fv *FV) havocLoop(st *State, li *LoopInfo) {
 }
 
 func (fv *FV) havocAlloc(st *State) {
-	old := fv.heapGet(st.heap, st.epoch, "pv_alloc", arraySort(SInt, SBool))
-	na := fv.freshConst(st, "pv_alloc", arraySort(SInt, SBool), nil)
-	fv.nfresh++
-	q := fmt.Sprintf("x_q%d", fv.nfresh)
-	st.assume(Term{S: fmt.Sprintf("(forall ((%s Int)) (! (=> (select %s %s) (select %s %s)) :pattern ((select %s %s))))", q, old.S, q, na.S, q, na.S, q), Sort: SBool})
-	st.heap["pv_alloc"] = na
+	old := fv.nextOf(st.heap, st.epoch)
+	na := fv.freshConst(st, "pv_next", SInt, nil)
+	st.assume(app(SBool, ">=", na, old))
+	st.heap["pv_next"] = na
 }
 
 func (fv *FV) havocAll(st *State) {
 	// keep alloc monotone
-	old := fv.heapGet(st.heap, st.epoch, "pv_alloc", arraySort(SInt, SBool))
+	old := fv.nextOf(st.heap, st.epoch)
 	st.heap = map[string]Term{}
 	fv.nfresh++
 	st.epoch = fv.nfresh
-	na := fv.heapGet(st.heap, st.epoch, "pv_alloc", arraySort(SInt, SBool))
-	fv.nfresh++
-	q := fmt.Sprintf("x_q%d", fv.nfresh)
-	st.assume(Term{S: fmt.Sprintf("(forall ((%s Int)) (! (=> (select %s %s) (select %s %s)) :pattern ((select %s %s))))", q, old.S, q, na.S, q, na.S, q), Sort: SBool})
+	na := fv.nextOf(st.heap, st.epoch)
+	st.assume(app(SBool, ">=", na, old))
 	st.nonnil = map[string]bool{}
 }
 
@@ -282,6 +279,7 @@ func (fv *FV) doReturn(st *State, x *ssa.Return) *State {
 		res = append(res, fv.val(st, r))
 	}
 	if fr.Caller == nil {
+		fv.checkTypeInvs(st, x.Pos())
 		fv.checkPost(st, x, res)
 		return nil
 	}
@@ -400,8 +398,7 @@ func (fv *FV) frameCheck(st *State, ref Term, root types.Type, idx int, pos toke
 	var errs []string
 	env := fv.stateEnv(st, &errs)
 	name := fieldHeapName(root, idx)
-	alloc0 := fv.heapGet(map[string]Term{}, 0, "pv_alloc", arraySort(SInt, SBool))
-	alts := []Term{tNot(tSelect(alloc0, ref, SBool))}
+	alts := []Term{tNot(fv.allocAtEntry(ref))}
 	for _, a := range fv.spec.Assigns {
 		sel, ok := a.E.(*ESel)
 		if !ok {
@@ -456,8 +453,7 @@ func (fv *FV) mapFrameCheck(st *State, m Term, pos token.Pos) {
 	}
 	var errs []string
 	env := fv.stateEnv(st, &errs)
-	alloc0 := fv.heapGet(map[string]Term{}, 0, "pv_alloc", arraySort(SInt, SBool))
-	alts := []Term{tNot(tSelect(alloc0, m, SBool))}
+	alts := []Term{tNot(fv.allocAtEntry(m))}
 	for _, a := range fv.spec.Assigns {
 		if c, ok := a.E.(*ECall); ok && c.Fn == "contents" && len(c.Args) == 1 {
 			alts = append(alts, tEq(m, env.old.Eval(c.Args[0])))
